@@ -15,6 +15,7 @@ import Drv.Bist
 import Drv.Adapter
 import Drv.DramFifo
 import Drv.Avalon
+import Drv.Wishbone
 open DrvUtil
 
 def main (args : List String) : IO UInt32 := do
@@ -37,6 +38,9 @@ def main (args : List String) : IO UInt32 := do
   | ["fifomon"] => foldLines i o none drvFifoMon; return 0
   | ["fifowitness"] => mapLines i o drvFifoWitness; return 0
   | ["avalon"] => foldLines i o none drvAvalon; return 0
+  | ["wbw2n"] => foldLines i o none drvWbW2N; return 0
+  | ["wbup"] => foldLines i o none drvWbUp; return 0
+  | ["wbn2w"] => foldLines i o none drvWbN2W; return 0
   | ["injector"] => foldLines i o none drvInjector; return 0
   | ["ratemon"] => foldLines i o none drvRateMon; return 0
   | ["rateconv"] => foldLines i o none drvRateConv; return 0
